@@ -70,7 +70,7 @@ VERSIONS = {'quick': [1, 2], 'thorough': [1, 2, 0, 0xFFFFFFFF]}
 LOCKTIMES = {'quick': [0, 0xFFFFFFFF], 'thorough': [0, 0xFFFFFFFF, 1, 499_999_999, 500_000_000]}
 SEQUENCES = ['max', 'zero', 'mixed']
 OUTPUT_LISTS = ['all', 'none', 'p2pkh', 'p2sh', 'claim', 'claim_big', 'update', 'support', 'support_data', 'purchase',
-                'p2pk', 'segwit', 'claim_p2sh', 'unknown', 'two', 'amounts', 'many252', 'many253']
+                'p2pk', 'segwit', 'claim_p2sh', 'unknown', 'two', 'amounts', 'many252', 'many253', 'many256', 'many257']
 SCRIPT_LEN_BOUNDARIES = {'quick': [252, 253], 'thorough': [75 + 33, 252, 253, 254, 65535, 65536]}
 
 SIGNED_OBJECTS = ['stream_small', 'stream_4k', 'empty_claim', 'channel', 'repost', 'collection', 'update_stream',
@@ -354,7 +354,7 @@ def make_outputs(name, k=0):
         return [single['p2pkh'](), single['claim']()]
     if name == 'amounts':
         return [Output.pay_pubkey_hash(a, h1) for a in (0, 1, 2 ** 63 - 1, 2 ** 63, 2 ** 64 - 1)]
-    if name in ('many252', 'many253'):
+    if name.startswith('many'):
         return [Output.pay_pubkey_hash(1000 + i, h1) for i in range(int(name[4:]))]
     raise ValueError(name)
 
@@ -423,12 +423,13 @@ def run_input_case(h, spec, res):
     for j, (kind, slot) in enumerate(ins):
         s = h.slots[slot]
         pkh = h.ledger.address_to_hash160(s['address'])
-        outs = [make_spent('p2pkh', FOREIGN_HASH, 5000 + i, i) for i in range(j)]     # so that nout == j
+        pos = j if n <= 8 else j % 5                                                   # nout of the spent output
+        outs = [make_spent('p2pkh', FOREIGN_HASH, 5000 + i, i) for i in range(pos)]
         txo = make_spent(kind, pkh, 2 * COIN + j, j)
         ftx = _funding_tx(outs + [txo], j)
         spent.append(txo)
         fraw = ftx.raw
-        prev.append((btc_tx.sha256d(fraw), j, btc_tx.decode(fraw)['outputs'][j]['script']))
+        prev.append((btc_tx.sha256d(fraw), pos, btc_tx.decode(fraw)['outputs'][pos]['script']))
     tx = Transaction(version=spec['v'], locktime=spec['lt'])
     inputs = [Input.spend(t) for t in spent]
     for txi, sq in zip(inputs, sequences(spec['seq'], n)):
@@ -466,7 +467,8 @@ def run_input_case(h, spec, res):
         log.append(f"input {i} ({kind}, {s['aid']}/{s['why']}): {'ok' if f['ok'] else f['why']}")
         kind_class = kind.split(':')[0]
         if not f['ok']:
-            res.violation(dict(sig_base, why=f['code'], spent_kind=kind_class, position=i,
+            res.violation(dict(sig_base, why=f['code'], spent_kind=kind_class,
+                               position=i if i <= 8 else ('above-256' if i > 256 else '9..256'),
                                others='signed' if spec['resign'] else 'placeholder'),
                           f"input {i} spending a {kind} output: {f['why']}", spec)
             continue
@@ -499,6 +501,12 @@ def run_input_case(h, spec, res):
         res.witness('inputs_from_two_accounts_in_one_transaction')
     if len(post['outputs']) >= 253:
         res.witness('output_count_needs_3_byte_compact_size')
+    if len(post['outputs']) > 256:
+        res.witness('more_than_256_outputs')
+    if n >= 253:
+        res.witness('input_count_needs_3_byte_compact_size')
+    if n > 257:
+        res.witness('input_index_above_256_signed_and_verified')
     res.distinct_add('nontrivial', ('in', tuple((k, h.slots[s]['why'], h.slots[s]['aid']) for k, s in ins),
                                     spec['outs'], spec['v'], spec['lt'], spec['seq'], spec['resign'], spec.get('k', 0)))
     return '\n'.join(log)
@@ -513,6 +521,28 @@ def work_inputs(item, res):
         if lo == 0 and cases:
             res.sample({'input_case': cases[0]})
             res.sample({'input_case': cases[-1]})
+
+
+MANY_INPUTS = {'quick': [253, 257, 258, 300], 'thorough': [252, 253, 255, 256, 257, 258, 259, 300, 512, 1000]}
+
+
+def many_inputs_case(wallet_id, n, n_slots, variant):
+    """UTXO consolidation: n inputs in one wallet-signed transaction.  'p2pkh': plain payments over all key slots;
+    'claims': claim-type outputs at the indices around and above 256 and at the end."""
+    ins = [['p2pkh', j % n_slots] for j in range(n)]
+    if variant == 'claims':
+        for j, kind in ((255, 'support'), (256, 'update'), (257, 'claim'), (258, 'claim_big'), (n - 1, 'claim')):
+            if j < n:
+                ins[j] = [kind, j % n_slots]
+    return {'mode': 'inputs', 'w': wallet_id, 'ins': ins, 'outs': 'two', 'v': 1, 'lt': 0, 'seq': 'max', 'resign': 0, 'k': 0}
+
+
+def work_many(item, res):
+    _, wallet_id, n, variant = item
+    with SignH(wallet_id, res) as h:
+        run_input_case(h, many_inputs_case(wallet_id, n, len(h.slots), variant), res)
+        if n == 258 and variant == 'p2pkh':
+            res.sample({'many_inputs_case': {'wallet': wallet_id, 'inputs': n, 'verified': 'every index'}})
 
 
 def work_sweep(item, res):
@@ -1514,7 +1544,9 @@ def run(ctx):
         tl_items += [('timelock', w, tier, lo, min(lo + 40, total)) for lo in range(0, total, 40)]
     n_calls = len(HIST_PLAN[tier][0]) * len(HIST_PLAN[tier][1])
     hist_items = [('history', tier, mode, i) for mode in ('obj', 'wire') for i in range(n_calls)]
-    ctx.pmap(_dispatch, hist_items + tl_items + signed_items + fixture_items + items + sweep_items + csweep_items + flow_items
+    many_items = [('many', 'W1', n, 'p2pkh') for n in MANY_INPUTS[tier]]
+    many_items += [('many', 'W1', n, 'claims') for n in ([300] if ctx.quick else [258, 300, 1000])]
+    ctx.pmap(_dispatch, many_items + hist_items + tl_items + signed_items + fixture_items + items + sweep_items + csweep_items + flow_items
              + [('pinned',)])
     ctx.meta.update(
         rule=('inputs: per wallet every tuple of spent-output kinds (6 kinds incl. 4 KiB claims) of length 1..N x every '
@@ -1522,7 +1554,8 @@ def run(ctx):
               'account, single-address accounts, account restored from xprv), same-key-for-all-inputs, full product '
               'version x locktime x sequence pattern x re-sign on four input shapes, every output list (each script kind '
               'alone, none, all 12 kinds, extreme amounts, 252/253 outputs), spent-script lengths on compact-size '
-              'boundaries, an amount sweep (every k) for short r/s; channels: every signed-object kind x signer x '
+              'boundaries, consolidation transactions with 253..300 (thorough ..1000) inputs verified at every index, 256/257 '
+              'outputs, an amount sweep (every k) for short r/s; channels: every signed-object kind x signer x '
               'first-input variant with every single-bit mutation of signature, channel id, first-input txid/index, format '
               'flag, message (every bit of the first B bytes, two bits per byte after), input swap, every other channel, '
               'every bit of the channel key, placeholder signature; three main-net fixtures with the same mutations; five '
@@ -1536,7 +1569,7 @@ def run(ctx):
               'sequence, re-sign, amount) input cases + distinct (object, mutated field, byte offset) + distinct signed '
               'objects / channel swaps / flows.'),
         exhaustive=True,
-        bounds={'time_lock_heights': TIMELOCK_HEIGHTS[tier], 'validation_history_plan': list(HIST_PLAN[tier]),
+        bounds={'many_input_sizes': MANY_INPUTS[tier], 'time_lock_heights': TIMELOCK_HEIGHTS[tier], 'validation_history_plan': list(HIST_PLAN[tier]),
                 'max_inputs': 2 if ctx.quick else 4, 'wallets': wallets, 'message_bytes_with_every_bit_flipped': bit_bytes,
                 'amount_sweep': sweep_n, 'signed_counter_sweep': csweep_n, 'signers': signers},
         assumptions=[
@@ -1562,6 +1595,7 @@ def run(ctx):
                             'legacy_v1_format_fixture', 'channel_with_der_encoded_public_key', 'empty_message_signed',
                             'signature_pinned_by_upstream_test_verifies_under_reference_digest',
                             'wallet_flow_signed_by_channel_validates_after_input_signing',
+                            'input_index_above_256_signed_and_verified', 'more_than_256_outputs',
                             'reference_validated_on_mainnet_time_lock_spend', 'time_locked_script_hash_input_verified',
                             'time_locked_input_mixed_with_ordinary_inputs', 'lock_height_script_number_of_5_bytes',
                             'time_lock_key_pubkey_with_leading_zero_byte',
@@ -1588,6 +1622,8 @@ def _dispatch(item, res):
         work_pinned(item, res)
     elif kind == 'timelock':
         work_timelock(item, res)
+    elif kind == 'many':
+        work_many(item, res)
     elif kind == 'history':
         work_history(item, res)
     else:
